@@ -135,6 +135,26 @@ def oracle_W(spec, lens, Hy, wl, px, py, nmed_img, n_obj):
     return out, inten, dict(xpl=xpl, R=R)
 
 
+def principal(ora, meta, wl):
+    """The documented quantity from both sphere intersections.
+
+    The distance back along a ray from its image point to the sphere |X - C| = R has one non-negative solution when the
+    image point lies inside the sphere (every ordinary ray; the chief ray sits at the centre) - the `+` root, which is
+    then THE path to the reference sphere.  A ray whose transverse aberration exceeds R lands outside the sphere: both
+    intersections lie on the same side and the statement does not say which one is meant, so either is accepted for
+    exactly those rays (counted as a class).  Returns Wp, Wm, outside, cond (rounding allowance in waves: the
+    sphere radius and the accumulated path enter the subtraction with their full magnitude)."""
+    lam = wl * 1e-3
+    pc = ora[+1.0][3]
+    Wp, Wm = (pc - ora[+1.0][4]) / lam, (pc - ora[-1.0][4]) / lam
+    tp, tm = ora[+1.0][1], ora[-1.0][1]
+    with np.errstate(invalid='ignore'):
+        inside = (tm < 0) & (tp > 0)
+    outside = np.isfinite(tp) & np.isfinite(tm) & ~inside
+    cond = 64 * 2.220446049250313e-16 * (abs(meta['R']) + abs(pc)) / lam
+    return Wp, Wm, outside, cond
+
+
 def check_case(case, rec):
     spec = case['spec']
     lens = L.build(spec)       # analysed by the library
@@ -165,43 +185,25 @@ def check_case(case, rec):
     def compare(clause, W_lib, px, py, detail_extra=None):
         ora, inten, meta = oracle_W(spec, lens2, Hy, wl, px, py, n_prev, n_obj)
         W_lib = np.asarray(W_lib, float)
-        best = None
-        for root, (W, tr, tc, _pc, _pr) in ora.items():
-            fin = np.isfinite(W) & np.isfinite(W_lib)
-            nonf_same = np.array_equal(np.isfinite(W), np.isfinite(W_lib))
-            r = float(np.max(np.abs(W[fin] - W_lib[fin]) / (1e-6 + 1e-9 * np.abs(W[fin])))) if fin.any() else 0.0
-            if not nonf_same:
-                r = float('inf')
-            if best is None or r < best[0]:
-                best = (r, root, W)
-        r, root, W = best
-        if r > 1:
-            # grossly aberrated pupils (thousands of waves): both sphere intersections lie in front of a ray and the
-            # library takes, per ray, the nearer one behind the image; the statement does not fix the root, so there a
-            # per-ray match with either root is accepted (counted as a class)
-            Wp, Wm = ora[+1.0][0], ora[-1.0][0]
-            lam = wl * 1e-3
-            peak_any = float(np.nanmax(np.abs(np.concatenate([Wp, Wm])))) if np.isfinite(np.concatenate([Wp, Wm])).any() else 0.0
-            if peak_any >= 1000:
-                for croot in (+1.0, -1.0):          # one root for the chief ray, either root per pupil ray
-                    pc_ = ora[croot][3]
-                    Wa, Wb = (pc_ - ora[+1.0][4]) / lam, (pc_ - ora[-1.0][4]) / lam
-                    ep = np.abs(Wa - W_lib) / (1e-6 + 1e-9 * np.abs(Wa))
-                    em = np.abs(Wb - W_lib) / (1e-6 + 1e-9 * np.abs(Wb))
-                    e = np.fmin(ep, em)
-                    if np.array_equal(np.isfinite(e), np.isfinite(W_lib)) and (not np.isfinite(e).any() or float(np.nanmax(e)) <= 1):
-                        rec.cls('grossly-aberrated-mixed-roots-accepted')
-                        r = float(np.nanmax(e)) if np.isfinite(e).any() else 0.0
-                        W = np.where(ep <= em, Wa, Wb)
-                        break
+        Wp, Wm, outside, cond = principal(ora, meta, wl)
+        with np.errstate(invalid='ignore'):
+            ep = np.abs(Wp - W_lib) / (1e-6 + 1e-9 * np.abs(Wp) + cond)
+            em = np.abs(Wm - W_lib) / (1e-6 + 1e-9 * np.abs(Wm) + cond)
+        e = np.where(outside, np.fmin(ep, em), ep)
+        if outside.any():
+            rec.cls('rays-outside-reference-sphere-either-root-accepted')
+        W = np.where(outside & (em < ep), Wm, Wp)
+        if np.array_equal(np.isfinite(W), np.isfinite(W_lib)):
+            r = float(np.nanmax(e)) if np.isfinite(e).any() else 0.0
+        else:
+            r = float('inf')
         key = None      # (the image-space-index defect was repaired: no as-built model, a regression is a plain violation)
         fin = np.isfinite(W)
         peak = float(np.max(np.abs(W[fin]))) if fin.any() else 0.0
         rec.check(clause, r <= 1, key=key, resid=r, tol=1.0,
                   msg=f'{clause}: reported OPD differs from (chief path - ray path)/lambda to the reference sphere '
                       f'(worst {r:.3g} x tolerance; peak |W| {peak:.3g} waves; XPL {meta["xpl"]:.4g}, R {meta["R"]:.4g})',
-                  detail=dict(lib=W_lib[:6], oracle=W[:6], root=root, **(detail_extra or {})))
-        rec.cls('library-root-far' if root > 0 else 'library-root-near')
+                  detail=dict(lib=W_lib[:6], oracle=W[:6], rays_outside_sphere=int(outside.sum()), **(detail_extra or {})))
         if peak >= 0.01 and fin.sum() >= 6:
             rec.nontrivial_case()
         rec.event('pupil_samples_compared', int(fin.sum()))
@@ -247,26 +249,26 @@ def check_case(case, rec):
         o = RmsWavefrontErrorVsField(lens, num_fields=nf, wavelengths=[wl], num_rays=nr, distribution='hexapolar')
         got = np.asarray(o._wavefront_error, float)
         d = make_dist('hexapolar', nr, 0)
-        want, peaks = [], []
+        want, sane = [], []
         for h in np.linspace(0, 1, nf):
-            ora, _, _ = oracle_W(spec, lens2, float(h), wl, d.x, d.y, n_prev, n_obj)
-            want.append([float(np.sqrt(np.mean(W ** 2))) for (W, _, _, _, _) in ora.values()])
-            peaks.append(max(float(np.max(np.abs(W))) if np.isfinite(W).all() else float('nan') for (W, _, _, _, _) in ora.values()))
-        want, peaks = np.array(want), np.array(peaks)     # (nf, 2 roots), (nf,)
+            ora, _, meta = oracle_W(spec, lens2, float(h), wl, d.x, d.y, n_prev, n_obj)
+            Wp, _, outside, cond = principal(ora, meta, wl)
+            want.append(float(np.sqrt(np.mean(Wp ** 2))))
+            sane.append(not outside.any())
+        want, sane = np.array(want), np.array(sane)
         if not np.all(np.isfinite(want)):
             rec.cls('pupil-has-lost-rays-rms-skipped')
             return
         g = got.reshape(nf, -1)[:, 0]
-        sane = peaks < 1000      # grossly aberrated field points (peak >= 1000 waves) mix sphere roots per ray: same rule as in compare()
         if not sane.all():
-            rec.cls('grossly-aberrated-field-points-skipped')
+            rec.cls('field-points-with-rays-outside-the-reference-sphere-skipped')   # root not fixed by the statement there
         if not sane.any():
             return
         g, want = g[sane], want[sane]
-        r = min(float(np.max(np.abs(g - want[:, j]) / (1e-6 + 1e-9 * np.abs(want[:, j])))) for j in range(2))
+        r = float(np.max(np.abs(g - want) / (1e-6 + 1e-9 * np.abs(want) + cond)))
         key = None
         rec.check('rms-wavefront-vs-field', r <= 1, key=key, resid=r, tol=1.0,
-                  msg=f'RMS wavefront error vs field {g} differs from the recomputed {want[:, 0]} / {want[:, 1]}')
+                  msg=f'RMS wavefront error vs field {g} differs from the recomputed {want}')
         if float(np.max(want)) >= 0.01:
             rec.nontrivial_case()
     else:
@@ -279,15 +281,16 @@ def check_case(case, rec):
         wts = gq.get_weights(nr)
         wts = np.asarray(wts, float) if sym else np.repeat(np.asarray(wts, float), 3)
         got = float(RayOperand.OPD_difference(lens, 0.0, Hy, nr, wl))
-        ora, _, _ = oracle_W(spec, lens2, Hy, wl, gq.x, gq.y, n_prev, n_obj)
-        wants = [float(np.mean(np.abs((W - np.mean(W)) * wts))) for (W, _, _, _, _) in ora.values()]
+        ora, _, meta = oracle_W(spec, lens2, Hy, wl, gq.x, gq.y, n_prev, n_obj)
+        Wp, _, outside, cond = principal(ora, meta, wl)
+        wants = [float(np.mean(np.abs((Wp - np.mean(Wp)) * wts)))]
         if not np.all(np.isfinite(wants)):
             rec.cls('pupil-has-lost-rays-rms-skipped')
             return
-        if max(wants) >= 1000:
-            rec.cls('grossly-aberrated-operand-skipped')
+        if outside.any():
+            rec.cls('operand-with-rays-outside-the-reference-sphere-skipped')
             return
-        r = min(abs(got - w) / (1e-6 + 1e-9 * abs(w)) for w in wants)
+        r = min(abs(got - w) / (1e-6 + 1e-9 * abs(w) + cond) for w in wants)
         key = None
         rec.check('opd-difference-operand', r <= 1, key=key, resid=r, tol=1.0,
                   msg=f'RayOperand.OPD_difference {got!r} vs the documented weighted mean on Gaussian-quadrature samples {wants}')
